@@ -82,7 +82,13 @@ Base == <<
   \* 34: the same with a multi-byte character in the root word that ends with the comma
   << <<"select", "">>, S1("path"), S1("from"), S1("café,"), S1("sub/deep"), S1("where"), S1("name"), <<"=", "eq">>, S1("'*.txt'") >>,
   \* 35: arithmetic written without blanks (the letter case of a column name next to an operator character)
-  << S1("select"), S1("name"), S1(","), S1("size*2"), S1(","), S1("size+1"), S1(","), S1("line_count+1"), S1("from"), S1("."), S1("where"), S1("size-1"), <<">", "gt">>, S1("5") >>
+  << S1("select"), S1("name"), S1(","), S1("size*2"), S1(","), S1("size+1"), S1(","), S1("line_count+1"), S1("from"), S1("."), S1("where"), S1("size-1"), <<">", "gt">>, S1("5") >>,
+  \* 36: the functions without arguments, with and without brackets
+  << S1("select"), <<"current_group()", "current_group", "current_group{}">>, S1(","), <<"current_user()", "current_user", "current_user{}">>, S1(","),
+     <<"current_gid()", "current_gid", "current_gid{}">>, S1(","), S1("name"), S1("from"), S1(".") >>,
+  \* 37: sort and group keys that start with a bracket, in both bracket kinds
+  << S1("select"), S1("name"), S1("from"), S1("."), S1("order"), S1("by"), <<"(size + 1) * 2", "{size + 1} * 2">>, S1("desc") >>,
+  << S1("select"), S1("name"), S1("from"), S1("."), S1("order"), S1("by"), <<"(size + 1) % 7", "{size + 1} % 7">>, S1(","), S1("name"), <<"", "asc">> >>
 >>
 
 VARIABLES q, slot, alt, casing, split, phase
